@@ -1223,10 +1223,8 @@ impl Parser {
             })));
         }
 
-        let cspan = self.previous().span_to(self.peek().span());
         let labels = vec![
             LabeledSpan::at(self.peek().span(), "primary expected here"),
-            // LabeledSpan::at(cspan, "consider checking your upstream code"),
         ];
         // todo improve this message
         let report = miette!(
